@@ -6,7 +6,7 @@
 // The tree is an append-only ghost log of made nodes and links; NodeTree::make / node and Node::set_parent_in / set_next are the
 // TRUSTED primitive layer (node_tree.rs / node.rs, 3-8 lines each).  Termination of the mutual recursion is not verified.
 //@@ unit U-tree
-//@@ default props=C20 rewrites=R1,R2,R3,R5,R13,R15,R23 ghost="Tracked(t): Tracked<&mut TreeAbs>" ghostarg="Tracked(t)" attr="#[verifier::exec_allows_no_decreases_clause] #[verifier::loop_isolation(false)]" bodyprelude="broadcast use {lemma_link_kept, lemma_rule_kept, lemma_acts_kept, lemma_branches_kept, lemma_made_kept, lemma_grows_refl, lemma_grows_tr};"
+//@@ default props=C20,C04,C12 rewrites=R1,R2,R3,R5,R13,R15,R23 ghost="Tracked(t): Tracked<&mut TreeAbs>" ghostarg="Tracked(t)" attr="#[verifier::exec_allows_no_decreases_clause] #[verifier::loop_isolation(false)]" bodyprelude="broadcast use {lemma_link_kept, lemma_rule_kept, lemma_acts_kept, lemma_branches_kept, lemma_made_kept, lemma_grows_refl, lemma_grows_tr};"
 //@@ heapmethods make set_parent set_parent_in set_next append_node build_step build_branch build_act
 use vstd::prelude::*;
 use std::sync::Arc;
